@@ -131,6 +131,12 @@ def generate(tier, seed):
         for a in ["65", "55296", "57343", "1114111", "1114112", "-1", "0", "9223372036854775807", "-9223372036854775808", "2.5", "-2.7", "-0.5", '"s"', "'sym", "nil", "'(1 2)", ":k"]:
             reqs.append('(format "<%%%s>" %s)' % (ch.replace("\\", "\\\\").replace('"', '\\"'), a))
         reqs.append('(format "<%%%s>")' % ch.replace('"', '\\"'))
+    for k in [":k", "nil", "t", ":kw2"]:
+        for v in [k, "(list 1 %s)" % k, "'(%s . %s)" % (k, k), "'x", "5", "(list (list %s))" % k]:
+            reqs += ["(let ((%s %s)) 1)" % (k, v), "(let* ((a 1) (%s %s)) a)" % (k, v), "(funcall (lambda (%s) 1) %s)" % (k, v), "(progn (defun cf (a &rest %s) a) (cf 1 2 %s))" % (k, v),
+                     "(dolist (%s (list %s 2 3)) nil)" % (k, v), "(dotimes (%s 2) nil)" % k, "(progn (defun cf (&optional %s) 1) (cf %s))" % (k, v), "(setq %s %s)" % (k, v),
+                     "(set '%s %s)" % (k, v), "(if-let ((%s %s)) 1 2)" % (k, v), "(progn (defmacro cm (%s) 1) (cm %s))" % (k, v), "(mapcar (lambda (%s) 1) (list %s))" % (k, v),
+                     "(seq-reduce (lambda (%s b) 1) (list %s) %s)" % (k, v, v), "(let ((h (make-hash-table))) (puthash %s %s h) (gethash %s h))" % (k, v, k)]
     # random programs with extreme numerals
     for _ in range(5000 if tier == "quick" else 200000):
         g = ProgGen(rng, max_depth=3, ticks=False, loops=False)   # literal replacement must not touch loop bounds
